@@ -66,7 +66,12 @@ def fold_arrangement(f, majors, del_allele):
     def name(i):
         return del_allele if i == -1 else shown(sol[i].major)
 
-    solution = Obj(solution=sol, get_major_name=name, set_diplotype=lambda d: store.__setitem__("d", d))
+    def set_diplotype(d):
+        # as MinorSolution.set_diplotype: the arrangement is kept on the solution (readable as `solution.diplotype`)
+        store["d"] = d
+        solution.diplotype = d
+
+    solution = Obj(solution=sol, get_major_name=name, set_diplotype=set_diplotype, diplotype=None)
     gene = Obj(deletion_allele=lambda: del_allele, common_tandems=TANDEMS)
     ev = Evaluator({"gene": gene, "solution": solution}, funcs={"re.split": re.split, "natsorted": natsorted})
     body = [s for s in f.body if not (isinstance(s, ast.Expr) and isinstance(s.value, ast.Constant))]
@@ -251,6 +256,8 @@ MUTANTS = [
          old='        n = str(self.solution[i].major).split("#")[0:1]', new='        n = [str(self.solution[i].major).partition("#")[0]]'),
     dict(name="R1 single copy without its deletion partner", module="diplotype", expect="C11.R1",
          old="        elif len(solution.solution) == 1:\n            major_dict[del_allele].append(-1)", new="        elif len(solution.solution) == 1:\n            pass"),
+    dict(name="R1 zero copies: early return without deletion placeholders (seed C11_e1)", module="diplotype", expect="C11.R1",
+         old="    del_allele = gene.deletion_allele()\n", new="    if not solution.solution:\n        solution.set_diplotype([[], []])\n        return solution.diplotype\n    del_allele = gene.deletion_allele()\n"),
     dict(name="R1 all copies may stay on one haplotype", module="diplotype", expect="C11.R1",
          old="    if len(diplotype[1]) == 0:\n        if len(diplotype[0]) > 1:", new="    if len(diplotype[1]) == 0 and False:\n        if len(diplotype[0]) > 1:"),
     dict(name="R1 duplicate group drops a copy", module="diplotype", expect="C11.R1",
